@@ -13,6 +13,12 @@ def corpus(rng, tier):
     out += [gen_coff_program(rng, big=True) for _ in range(3 if tier == "quick" else 40)]
     # empty .text, no symbols
     out.append({"prog": [("config", "FORMAT", ("str", b"WCOFF"))], "flat": [], "globals": [], "labels": [], "file": None, "dup": False, "longfile": False})
+    # .text at and beyond 64 KiB (16-bit size fields must not be involved anywhere)
+    for n in (65533, 65534, 65535, 70000):
+        prog = [("config", "FORMAT", ("str", b"WCOFF")), ("config", "BITS", ("num", 32)), ("global", ["_head", "_tail_of_a_large_section"]), ("label", "_head"),
+                ("op", "NOP"), ("mn", "RESB", [A.num(n)]), ("label", "_tail_of_a_large_section"), ("op", "RET")]
+        out.append({"prog": prog, "flat": prog[1:], "globals": ["_head", "_tail_of_a_large_section"], "labels": ["_head", "_tail_of_a_large_section"], "file": None,
+                    "dup": False, "longfile": False})
     # every name length 1..40, defined and undefined, once and twice
     for n in range(1, 41):
         nm = "_" + "a" * (n - 1)
